@@ -375,6 +375,14 @@ def r_sharemut(pid):
                             out.inst("%s::%s" % (f.key, norm(s)), {"method": f.dqual, "transfer": norm(s), "by_reference": shared})
                             if shared:
                                 out.report(m.rel, f.dqual, norm(s), s.lineno, "%s hands its own %s container to the object it builds (`%s`): both objects now share one %s, which the in-place methods of %s rewrite" % (f.dqual, t.attr, norm(s), t.attr, c.name))
+                    # copy-like methods: the class constructor is not handed self's own mutable attribute
+                    if f.name in ("copy", "__copy__", "__deepcopy__"):
+                        for call in _walk_no_nested(f.node):
+                            if isinstance(call, ast.Call) and ((isinstance(call.func, ast.Name) and call.func.id == c.name) or norm(call.func) in ("self.__class__", "type(self)")):
+                                for a_ in list(call.args) + [k.value for k in call.keywords]:
+                                    if isinstance(a_, ast.Attribute) and isinstance(a_.value, ast.Name) and a_.value.id == "self" and a_.attr in ma:
+                                        n += 1
+                                        out.report(m.rel, f.dqual, "%s(.. self.%s ..)" % (c.name, a_.attr), call.lineno, "%s builds its result with `%s`, passing its own %s object: the copy and the original share it, and %s is modified in place" % (f.dqual, norm(call)[:70], a_.attr, a_.attr))
         out.stats["transfers"] = n
         out.stats["classes_with_containers"] = nclasses
         if nclasses < 2:
